@@ -101,7 +101,7 @@ pub fn judge(x: &Vec<u8>, st: &mut Stats) -> Verdict {
         Ok(())
     }) {
         Ok(v) => v,
-        Err(_) => Ok(()), // panics: C03
+        Err(p) => Err(Fail::new("view-panics", shape(raw), "v1::Header::{protocol, addresses_str, to_string}", "every view returns a value", format!("panic: {}", p))),
     }
 }
 
